@@ -960,7 +960,7 @@ def check(ctx, case):
 
 def shard(ctx):
     bobproc.warm()
-    run_hypothesis(ctx, case_st(ctx.quick()), lambda c: check(ctx, c), ctx.n(256, 6000), shrink=False, minimize=("edits",))
+    run_hypothesis(ctx, case_st(ctx.quick()), lambda c: check(ctx, c), ctx.n(512, 6000), shrink=False, minimize=("edits",))
 
 def replay(ctx, case):
     run_case(ctx, case, confirm=True)
